@@ -189,8 +189,10 @@ def parse_playback(out):
     return items
 
 
-def run_many(jobs, workers, log, playback=False):
-    """jobs: list of (crate, harness, timeout_s, mem_gb, outdir). Returns results in order."""
+def run_many(jobs, workers, log, playback=False, deadline=None):
+    """jobs: list of (crate, harness, timeout_s, mem_gb, outdir). Returns results in order.
+    `deadline` (time.time() value): queries not started by then are returned as 'skipped', and a
+    running query's cap is cut to the time remaining (tier wall-clock budget)."""
     import queue
     results = [None] * len(jobs)
     slots = queue.Queue()
@@ -200,6 +202,12 @@ def run_many(jobs, workers, log, playback=False):
     def one(j):
         s = slots.get()
         try:
+            if deadline is not None:
+                left = deadline - time.time()
+                if left < 20:
+                    return {"harness": j[1], "crate": j[0].name, "rc": None, "secs": 0.0, "timed_out": False,
+                            "checks": [], "status": "skipped", "stats": {}, "raw_tail": ""}
+                j = (j[0], j[1], min(j[2], int(left)), j[3], j[4])
             return run_harness(*j, playback=playback, slot=s)
         finally:
             slots.put(s)
